@@ -472,6 +472,10 @@ pub struct BeamCase {
     /// 128K: the ULA shows bank 7 (screen-select bit set) and the CPU writes through 0xC000
     #[serde(default)]
     pub shadow: bool,
+    /// 128K: right after the write the program writes the latch value already in force to the
+    /// paging port (an accepted write that changes nothing): the frame in progress is not redrawn
+    #[serde(default)]
+    pub same_latch_rewritten: bool,
 }
 
 pub fn check_beam(c: &BeamCase, rec: &mut Rec) -> Result<(), String> {
@@ -529,6 +533,16 @@ pub fn check_beam(c: &BeamCase, rec: &mut Rec) -> Result<(), String> {
     let r = RegFile { pc: LOOP, sp: 0xBF00, hl: window + off as u16, af: (value as u16) << 8, ..Default::default() };
     mach::set_regs(&mut e, &r);
     mach::step_over(&mut e, 1)?;
+    if c.same_latch_rewritten && machine == Machine::K128 {
+        let (latch, _, _) = e.verif_paging();
+        mach::poke_bytes(&mut e, &mut mm, LOOP + 0x10, &[0x01, 0xFD, 0x7F, 0x3E, latch, 0xED, 0x79]);
+        mach::set_regs(&mut e, &RegFile { pc: LOOP + 0x10, sp: 0xBF00, ..Default::default() });
+        mach::step_over(&mut e, 3)?;
+        mach::step_over(&mut e, 2)?;
+        mach::step_over(&mut e, 2)?;
+        mach::set_regs(&mut e, &RegFile { pc: LOOP + 1, sp: 0xBF00, ..Default::default() });
+        rec.class("beam:same-latch-rewritten-after-the-write");
+    }
     let mut mem_before = vec![0u8; 6912];
     for b in mem_before[6144..].iter_mut() {
         *b = 0x38;
@@ -606,9 +620,9 @@ pub fn beam_strategy() -> impl Strategy<Value = BeamCase> {
         0u16..6912,
         any::<u8>(),
         prop_oneof![(64i32..400), (64i32..400).prop_map(|m| -m), Just(64), Just(-64)],
-        any::<bool>(),
+        (any::<bool>(), any::<bool>()),
     )
-        .prop_map(|(machine, offset, value, margin, shadow)| BeamCase { machine, offset, value, margin, shadow: shadow && machine == Machine::K128 })
+        .prop_map(|(machine, offset, value, margin, (shadow, rewrite))| BeamCase { machine, offset, value, margin, shadow: shadow && machine == Machine::K128, same_latch_rewritten: rewrite && machine == Machine::K128 })
 }
 
 pub fn run(run: &mut Run) {
@@ -628,7 +642,7 @@ pub fn replay(run: &mut Run, phase: &str, case: &serde_json::Value) -> Result<()
 }
 
 pub const LEVEL: &str = "exploration";
-pub const RULE: &str = "paths: 6912-byte screen contents (uniform; single bits with every attribute value; per-third address-bit patterns; BRIGHT+FLASH everywhere; sparse) delivered by one of {CPU LDIR through 0x4000, CPU LDIR through 0xC000 with bank 5/7 paged, execute_poke through 0x4000 or through 0xC000 with bank 5/7 paged, SCR load, SNA load, SZX load with stored or zlib pages, ROM LD-BYTES served by fast load to 0x4000 or to 0xC000 with bank 5/7 paged} on 48K/128K with either 128K screen bank displayed, after different content had been on screen; then 1..40 frames with the CPU in DI;JR $ — every delivered canvas must equal the independent standard decode of the bank the ULA displays, with one FLASH phase per frame that toggles in runs of exactly 16 frames; on the 128K the other screen bank is then shown by flipping the screen-select bit, and after a generated history of 1..4 real paging-port writes (lock values included) the bank selected by the last accepted write must be displayed; on the 48K a SNA snapshot taken with SP inside the display file (the format parks PC below SP and restores the bytes) must leave the picture as it was. beam-relative: one byte written by LD (HL),A (through 0x4000, or on the 128K through 0xC000 into the displayed bank 7) at a chosen T >= 64 T before (after) the ULA reaches it must (must not) appear in the frame in progress and must appear in the next. non-trivial = content with >= 64 distinct byte values delivered by a path other than plain LDIR through 0x4000 (beam phase: every case); distinct = hash of the case";
+pub const RULE: &str = "paths: 6912-byte screen contents (uniform; single bits with every attribute value; per-third address-bit patterns; BRIGHT+FLASH everywhere; sparse) delivered by one of {CPU LDIR through 0x4000, CPU LDIR through 0xC000 with bank 5/7 paged, execute_poke through 0x4000 or through 0xC000 with bank 5/7 paged, SCR load, SNA load, SZX load with stored or zlib pages, ROM LD-BYTES served by fast load to 0x4000 or to 0xC000 with bank 5/7 paged} on 48K/128K with either 128K screen bank displayed, after different content had been on screen; then 1..40 frames with the CPU in DI;JR $ — every delivered canvas must equal the independent standard decode of the bank the ULA displays, with one FLASH phase per frame that toggles in runs of exactly 16 frames; on the 128K the other screen bank is then shown by flipping the screen-select bit, and after a generated history of 1..4 real paging-port writes (lock values included) the bank selected by the last accepted write must be displayed; on the 48K a SNA snapshot taken with SP inside the display file (the format parks PC below SP and restores the bytes) must leave the picture as it was. beam-relative: one byte written by LD (HL),A (through 0x4000, or on the 128K through 0xC000 into the displayed bank 7) at a chosen T >= 64 T before (after) the ULA reaches it (on the 128K optionally followed by a paging write of the value already latched) must (must not) appear in the frame in progress and must appear in the next. non-trivial = content with >= 64 distinct byte values delivered by a path other than plain LDIR through 0x4000 (beam phase: every case); distinct = hash of the case";
 pub const ASSUMPTIONS: &[&str] = &[
     "SCR, SNA and SZX files are delivered all at once or in short reads (1, 33/100, nearly-whole) depending on the case seed",
     "decoder is written from the formula in the property; canvas read from the harness FrameBuffer after each completed frame",
